@@ -156,6 +156,7 @@ func exhaustiveDefault(s *Site) (bool, string) {
 // are discharged automatically (values of the tag type are only ever its
 // declared constants), everything else needs a table entry.
 func DischargePanics(c *core.Ctx, r *core.Rule, sites []*Site, table *Table, auto ...func(*Site) (bool, string)) {
+	table.NoteSites(sites)
 	for _, s := range sites {
 		pos := c.RelPos(s.Pos)
 		done := false
